@@ -10,7 +10,7 @@
 //!   total <m|i|e> <start> <hex src>
 //!   totalt <m|i|e> <start> <hex src>                                   same, also wall time
 //!   rep   <m|i|e> <start> <n> <hex prefix> <hex unit> <hex suffix>     src = prefix + unit*n + suffix
-//!   time  <m|i|e> <start> <n> <hex prefix> <hex unit> <hex suffix>     same source, also wall time
+//!   time  <m|i|e> <start> <n> <hex prefix> <hex unit> <hex suffix> [tag]   same source, also wall time
 //!   oct   <s|b> <hex text>       value of the literal  "\<text>"  (text: ASCII digits)
 //!   uni   <x|u|U> <s|b> <hex text>   literal "\x<text>" / "\u<text>" / "\U<text>"
 //!   name  <hex text>             literal "\N<text>"    (text has no quote/backslash/newline)
@@ -137,7 +137,7 @@ fn handle(ws: &[&str]) -> String {
             (Some(m), Ok(k), Some(s)) => total(&s, m, k, *op == "totalt"),
             _ => bad(),
         },
-        [op @ ("rep" | "time"), m, start, n, p, u, s] => match (
+        [op @ ("rep" | "time"), m, start, n, p, u, s, ..] => match (
             mode_of(m),
             start.parse::<u32>(),
             n.parse::<usize>(),
